@@ -80,6 +80,13 @@ theorem encode_length (m : Msg) (h : m.flags = 0x34#8) : (encode m).length = msg
   simp [encode, msgLen, h, optLen, alignPos, hasSeq, hasNpdu, be16, be32, hs]
   omega
 
+/-- the datagram `WritePacket` builds is the payload plus exactly 12 octets (no QoS flow) or 16 octets (container) — for
+    EVERY payload length, whatever its remainder modulo four: nothing is rounded, nothing of the payload is cut off -/
+theorem writePacket_length (teid : BitVec 32) (q : Option Byte) (pl : Bytes) :
+    (encode (writePacketMsg teid q pl)).length = pl.length + (if q.isSome then 16 else 12) := by
+  rw [encode_length _ (by cases q <;> rfl)]
+  cases q <;> simp [writePacketMsg, msgLen, optLen, alignPos, hasSeq, hasNpdu] <;> omega
+
 /-- non-vacuity: concrete packet, QFI 33 (needs bit 5), 2-byte payload. -/
 example : wellFormedGPDU (encode (writePacketMsg 0x01020304#32 (some 33#8) [0xde#8, 0xad#8]))
     0x01020304 (some (0, 33)) [0xde#8, 0xad#8] = true := by decide
